@@ -5,3 +5,11 @@ pub mod util;
 mod c06;
 #[cfg(kani)]
 mod c13;
+#[cfg(kani)]
+mod c14;
+#[cfg(kani)]
+mod c03;
+#[cfg(kani)]
+mod c08;
+#[cfg(kani)]
+mod c10;
